@@ -76,6 +76,8 @@ def systematic(tier):
     for kind in ('rpc', 'task', 'broadcast'):
         for outcome in ('value', 'exc'):
             cases.append({'adapter': 'loop_comm', 'kind': kind, 'outcome': outcome, 'awaits': [0, 1]})
+            for awaits in ([], [0]):
+                cases.append({'adapter': 'loop_comm', 'kind': kind, 'outcome': outcome, 'awaits': awaits, 'eager': True})
     cases.append({'adapter': 'loop_comm', 'kind': 'broadcast', 'outcome': 'value', 'awaits': [], 'filtered': True})
     for scenario in ('run', 'run_raises', 'run_twice', 'cancel_run', 'run_cancel', 'run_raises_twice', 'run_interrupted_twice'):
         cases.append({'adapter': 'action', 'scenario': scenario})
@@ -89,7 +91,7 @@ def random_case(rng, tier):
         kind = rng.choice(['rpc', 'task', 'broadcast'])
         return {'adapter': 'loop_comm', 'kind': kind, 'outcome': rng.choice(['value', 'exc']),
                 'awaits': [rng.choice([0, 0.5, 1]) for _ in range(rng.randint(0, 3))],
-                'filtered': kind == 'broadcast' and rng.random() < 0.4}
+                'filtered': kind == 'broadcast' and rng.random() < 0.4, 'eager': rng.random() < 0.5}
     if adapter == 'action':
         return {'adapter': 'action', 'scenario': rng.choice(['run', 'run_raises', 'run_twice', 'cancel_run', 'run_cancel',
                                                              'run_raises_twice', 'run_interrupted_twice'])}
@@ -337,6 +339,9 @@ def _run_loop_comm(case, plumpy, loop, result, events):
     from the communicator's thread, runs on the loop, and its outcome comes back through the reply future."""
     transport = comm.SimCommunicator(loop)
     wrapped = plumpy.wrap_communicator(transport, loop)
+    loop.eager_loop_thread = bool(case.get('eager'))  # which thread wins the race after call_soon_threadsafe
+    if case.get('eager'):
+        result.counters['loop_comm:loop_thread_runs_first'] += 1
     boom = Boom('subscriber')
     kind = case['kind']
     result.counters[f'loop_comm:{kind}:{case["outcome"]}'] += 1
